@@ -52,6 +52,10 @@ INVALID_POOL = [
     ("{mother} => {daughters}", "[{mother} => {{daughters}}]"),
     ("{mother} -> {daughters} }", "({mother} -> {daughters})"),
     ("{mother} -> {daughters}", "({mother} -> { {daughters})"),
+    # the placeholder's *name* as literal text is not the placeholder
+    ("mother -> {daughters}", "({mother} -> {daughters})"),
+    ("{mother} -> {daughters}", "({mother} and its daughters)"),
+    ("[grandmother -> {daughters}]", "({mother} -> {daughters})"),
     ("", ""),
 ]
 TREE = ("D*+", (("D0", (("K_S0", ("pi+", "pi-")), ("pi0", ("gamma", "gamma")))), "pi+"))
